@@ -170,6 +170,9 @@ type Session struct {
 	Log   *bh.Log
 	Name  string
 
+	// OnNextID is called (outside all locks) at the start of the n-th NextID call.
+	OnNextID func(n int)
+
 	mu     sync.Mutex
 	op     sync.Mutex // serialises operations together with their log entries
 	calls  map[string]int
@@ -207,7 +210,17 @@ func dirName(d session.Direction) string {
 	return "out"
 }
 
-func (s *Session) NextID() packet.ID { return s.Inner.NextID() }
+func (s *Session) NextID() packet.ID {
+	s.mu.Lock()
+	s.calls["NextID"]++
+	n := s.calls["NextID"]
+	h := s.OnNextID
+	s.mu.Unlock()
+	if h != nil {
+		h(n) // a slow session store: the scenario may let the connection die meanwhile
+	}
+	return s.Inner.NextID()
+}
 
 func (s *Session) SavePacket(d session.Direction, p packet.Generic) error {
 	if s.hit("SavePacket") {
